@@ -494,6 +494,9 @@ class ProgGen:
         if is_arr(v.t):
             self.need_dump.add(v.t[1])
             out.append(('expr', ('call', 'dump', (('var', n),))))
+            if v.t[1] == 'byte' and self.chance(0.35):
+                # the whole array through the library routine (its own loop; lengths 0 and 1 included)
+                out.append(('expr', ('call', 'writeln' if self.chance(0.3) else 'write', (('var', n),))))
         elif v.t == 'byte' and self.chance(0.5):
             out.append(('expr', ('call', 'write', (('is', ('var', n), 'int'),))))
         else:
